@@ -179,6 +179,8 @@ pub struct Engine<'a> {
     pub keep_dir: bool,
     pub op_index: usize,
     pub matrix_variant: Option<usize>,
+    pub witness_on: bool,
+    pub force_witness: bool,
     pub events: BTreeMap<String, u64>,
 }
 
@@ -210,6 +212,8 @@ impl<'a> Engine<'a> {
             keep_dir: false,
             op_index: 0,
             matrix_variant: None,
+            witness_on: false,
+            force_witness: false,
             events: BTreeMap::new(),
         };
         e.pool = gen_keyset(&mut e.rng, 40);
@@ -403,7 +407,9 @@ impl<'a> Engine<'a> {
     fn begin(&mut self, chain: &[usize]) -> Option<(usize, Session<Blake3Hasher>)> {
         let sid = self.next_sid;
         self.next_sid += 1;
-        let witness = if self.rng.chance(1, 2) { WitnessMode::read_write() } else { WitnessMode::disabled() };
+        let on = self.rng.chance(1, 2) || self.force_witness;
+        self.witness_on = on;
+        let witness = if on { WitnessMode::read_write() } else { WitnessMode::disabled() };
         let params = {
             let refs: Vec<&Overlay> = chain.iter().filter_map(|&i| self.ovs[i].handle.as_ref()).collect();
             SessionParams::default().witness_mode(witness).overlay(refs)
@@ -487,6 +493,126 @@ impl<'a> Engine<'a> {
         }
     }
 
+    /// C06: the witness must verify against the base root, attest every read with the value the session
+    /// saw, cover every written key, and replaying the writes with `verify_update` must give the new root.
+    #[allow(clippy::too_many_arguments)]
+    fn check_witness(
+        &mut self,
+        fid: usize,
+        w: &nomt::Witness,
+        prev_root: [u8; 32],
+        new_root: [u8; 32],
+        view: &Map,
+        reads: &[(Key, Option<[u8; 32]>)],
+        writes: &[(Key, Option<Val>)],
+    ) {
+        use nomt::proof::{verify_update, PathUpdate};
+        self.ev("witnesses");
+        let np = w.path_proofs.len();
+        let mut verified = Vec::new();
+        for (i, wp) in w.path_proofs.iter().enumerate() {
+            match wp.inner.verify::<Blake3Hasher>(wp.path.path(), prev_root) {
+                Ok(v) => verified.push(Some(v)),
+                Err(e) => {
+                    self.out.fail(format!("C06 witness path {i} does not verify against the session's base root: {e:?} (workers={})", self.cfg.workers));
+                    verified.push(None);
+                }
+            }
+        }
+        // reads: exactly the session's reads, each attested by its path with the value the session saw
+        let mut wreads: Vec<(Key, Option<[u8; 32]>)> = w.operations.reads.iter().map(|r| (r.key, r.value)).collect();
+        wreads.sort();
+        let mut exp = reads.to_vec();
+        exp.sort();
+        if wreads != exp {
+            self.out.fail(format!("C06 witnessed reads differ from what the session read ({} vs {} entries, workers={})", wreads.len(), exp.len(), self.cfg.workers));
+        }
+        for r in &w.operations.reads {
+            let ok = r.path_index < np
+                && match (&verified[r.path_index], r.value) {
+                    (Some(v), Some(vh)) => v.confirm_value(&LeafData { key_path: r.key, value_hash: vh }).ok() == Some(true),
+                    (Some(v), None) => v.confirm_nonexistence(&r.key).ok() == Some(true),
+                    _ => false,
+                };
+            if !ok {
+                self.out.fail(format!(
+                    "C06 witnessed read of {} (path_index {}) is not confirmed by its path (workers={}, paths={})",
+                    &hex(&r.key)[..16], r.path_index, self.cfg.workers, np
+                ));
+                break;
+            }
+            if view.get(&r.key).map(|v| vhash(v)) != r.value {
+                self.out.fail(format!("C06 witnessed read value of {} differs from the session's view", &hex(&r.key)[..16]));
+            }
+        }
+        // writes: exactly the session's writes
+        let mut wwrites: Vec<(Key, Option<[u8; 32]>)> = w.operations.writes.iter().map(|x| (x.key, x.value)).collect();
+        wwrites.sort();
+        let mut expw: Vec<(Key, Option<[u8; 32]>)> = writes.iter().map(|(k, v)| (*k, v.as_ref().map(|v| vhash(v)))).collect();
+        expw.sort();
+        if wwrites != expw {
+            self.out.fail(format!("C06 witnessed writes differ from the session's writes ({} vs {}, workers={})", wwrites.len(), expw.len(), self.cfg.workers));
+        }
+        // replay
+        let mut updates: Vec<PathUpdate> = Vec::new();
+        let mut all_ok = true;
+        for (i, v) in verified.into_iter().enumerate() {
+            let mut ops: Vec<(Key, Option<[u8; 32]>)> = w.operations.writes.iter().filter(|x| x.path_index == i).map(|x| (x.key, x.value)).collect();
+            ops.sort();
+            match v {
+                Some(v) if !ops.is_empty() => updates.push(PathUpdate { inner: v, ops }),
+                Some(_) => {}
+                None => all_ok = false,
+            }
+        }
+        if w.operations.writes.iter().any(|x| x.path_index >= np) {
+            self.out.fail("C06 witnessed write with a path_index out of range".into());
+            all_ok = false;
+        }
+        updates.sort_by(|a, b| a.inner.path().cmp(b.inner.path()));
+        if all_ok {
+            match catch_unwind(AssertUnwindSafe(|| verify_update::<Blake3Hasher>(prev_root, &updates))) {
+                Ok(Ok(r)) => {
+                    if r != new_root {
+                        self.out.fail(format!("C06 replaying the witnessed writes gives root {} but the store reported {}", hex(&r), hex(&new_root)));
+                    }
+                }
+                Ok(Err(e)) => self.out.fail(format!(
+                    "C06 witness does not replay: verify_update fails with {e:?} (workers={}, paths={}, writes={})",
+                    self.cfg.workers, np, w.operations.writes.len()
+                )),
+                Err(_) => self.out.fail(format!("C06 verify_update PANICS on the produced witness (workers={})", self.cfg.workers)),
+            }
+        }
+        // canonical form for the model: paths ascending, operations ascending by key
+        let mut items: Vec<(String, String)> = Vec::new();
+        for (i, wp) in w.path_proofs.iter().enumerate() {
+            let fmt_ops = |ops: Vec<(Key, Option<[u8; 32]>)>| {
+                if ops.is_empty() {
+                    "-".to_string()
+                } else {
+                    ops.iter().map(|(k, v)| format!("{}:{}", hex(k), v.map(|v| hex(&v)).unwrap_or("-".into()))).collect::<Vec<_>>().join(",")
+                }
+            };
+            let mut rs: Vec<(Key, Option<[u8; 32]>)> = w.operations.reads.iter().filter(|x| x.path_index == i).map(|x| (x.key, x.value)).collect();
+            rs.sort();
+            let mut ws: Vec<(Key, Option<[u8; 32]>)> = w.operations.writes.iter().filter(|x| x.path_index == i).map(|x| (x.key, x.value)).collect();
+            ws.sort();
+            let bits = bitslice_str(wp.path.path());
+            items.push((
+                bits.clone(),
+                format!("{};{};{};r={};w={}", bits, term_str(&wp.inner.terminal), nodes_line(&wp.inner.siblings), fmt_ops(rs), fmt_ops(ws)),
+            ));
+        }
+        items.sort_by(|a, b| {
+            let (x, y) = (if a.0 == "-" { "" } else { &a.0 }, if b.0 == "-" { "" } else { &b.0 });
+            x.cmp(y)
+        });
+        let rk = if reads.is_empty() { "-".to_string() } else { reads.iter().map(|(k, _)| hex(k)).collect::<Vec<_>>().join(",") };
+        let canon = if items.is_empty() { "-".to_string() } else { items.into_iter().map(|x| x.1).collect::<Vec<_>>().join("#") };
+        self.out.line(format!("witness {} {}", fid, rk), canon);
+    }
+
     fn check_proof(&mut self, p: &PathProof, k: &Key, root: [u8; 32], view: &Map) {
         match p.verify::<Blake3Hasher>(k.view_bits::<Msb0>(), root) {
             Ok(v) => match view.get(k) {
@@ -540,11 +666,20 @@ impl<'a> Engine<'a> {
         }
         let prev_root = s.prev_root().into_inner();
         let fid = self.fins.len();
+        let read_keys: Vec<(Key, Option<[u8; 32]>)> = actuals
+            .iter()
+            .filter_map(|(k, a)| match a {
+                KeyReadWrite::Read(v) | KeyReadWrite::ReadThenWrite(v, _) => Some((*k, v.as_ref().map(|v| vhash(v)))),
+                _ => None,
+            })
+            .collect();
+        let witness_on = self.witness_on;
         let op = format!("finish {} {} {}", sid, fid, Self::writes_line(&writes));
         let r = catch_unwind(AssertUnwindSafe(move || s.finish(actuals)));
         match r {
-            Ok(Ok(fin)) => {
+            Ok(Ok(mut fin)) => {
                 let root = fin.root().into_inner();
+                let witness = fin.take_witness();
                 let view_after = Self::apply(&view, &writes);
                 let expect = ref_root(&view_hashes(&view_after));
                 if root != expect {
@@ -557,6 +692,12 @@ impl<'a> Engine<'a> {
                     self.out.fail("prev_root changed across finish".into());
                 }
                 self.out.line(op, hex(&root));
+                if witness_on {
+                    match witness {
+                        Some(w) => self.check_witness(fid, &w, prev_root, root, &view, &read_keys, &writes),
+                        None => self.out.fail("C06 witness mode enabled but no witness produced".into()),
+                    }
+                }
                 self.fins.push(FinInfo { fin: Some(fin), writes, view_after, prev_root, root, chain: chain.to_vec() });
                 self.ev("finished_sessions");
                 Some(fid)
@@ -1209,6 +1350,9 @@ pub fn scenario(name: &str, out: &mut Sink) {
     if name == "reopen-resurrects-pruned-delta" || name == "rollback-all-then-reopen" {
         cfg.maxlog = 1;
     }
+    if name == "witness-many-workers" {
+        cfg.workers = 8;
+    }
     out.mark_case(format!("scenario {name} cfg: {}", cfg.describe()));
     let mut e = Engine::new(Rng::new(11), out, cfg, dir, false);
     let v = |n: u8| Some(vec![n; 40]);
@@ -1273,6 +1417,35 @@ pub fn scenario(name: &str, out: &mut Sink) {
             e.commit_fin(f, false);
             e.op_rollback_n(1);
             e.read_all("scenario");
+        }
+        // F3: witness of a session spanning several commit workers (operations must be attached to the
+        // right paths whatever order the workers finish in)
+        "witness-many-workers" => {
+            let mut ws: Vec<(Key, Option<Val>)> = Vec::new();
+            for i in 0..64u8 {
+                let mut key = [0u8; 32];
+                key[0] = i << 2;
+                key[1] = i;
+                ws.push((key, v(i)));
+            }
+            let f = e.session_writes(&[], &ws).unwrap();
+            e.commit_fin(f, false);
+            e.force_witness = true;
+            for round in 0..6u8 {
+                // skewed: many operations in the first shards, few in the last
+                let mut ws: Vec<(Key, Option<Val>)> = Vec::new();
+                for i in 0..64u8 {
+                    if i < 40 || i % 7 == round % 7 {
+                        let mut key = [0u8; 32];
+                        key[0] = i << 2;
+                        key[1] = i;
+                        key[2] = if i % 3 == 0 { 0 } else { round + 1 };
+                        ws.push((key, if (i + round) % 5 == 0 { None } else { v(i.wrapping_add(round)) }));
+                    }
+                }
+                let f = e.session_writes(&[], &ws).unwrap();
+                e.commit_fin(f, false);
+            }
         }
         // F6: a rejected overlay commit must not make its descendants look complete
         "rejected-overlay-marks-committed" => {
